@@ -11,6 +11,12 @@
      L lam n d o | .. | X | Y || mat(o*d) | off(o)            -> grad (o*(d+1)): lr_grad at the returned weights
      W/Z tv n d || rows | mat(rows*d) | off(rows)             -> coff omean ocov: center_off, mean and covariance of lin on the data
      P wh m n d || k | ev(k) | evec(d*k)                      -> mean gram eigres(k*d)
+       with 5 more sections  | on | oD(on) | oU(on*on) | epsm | cut   (the values the eigen-decomposition returned on the
+       on x on matrix of the branch taken, machine epsilon, the double 1e-15) additionally
+                                                               -> mev mevec(d*on) met encA encb decA decb whmet:
+                                                                  C15PcaModel.pca_setdata / pca_encoder / pca_decoder run with the
+                                                                  recorded values as the oracle's answer and sq = the correctly
+                                                                  rounded double square root (exact whenever the root is a double)
      D/DW lam n d K | .. | X | labels [| weights] || mat(K*d) -> prior means cov res(K*d) bpart(K) *)
 open C15_model
 
@@ -40,6 +46,42 @@ let q_to_string (x : q) : string =
   let x = qred x in if x.qden = XH then bin_of_z x.qnum else bin_of_z x.qnum ^ "/" ^ bin_of_pos x.qden
 let q0 = { qnum = Z0; qden = XH }
 let q1 = { qnum = Zpos XH; qden = XH }
+
+(* ---- rationals <-> doubles; sq = double square root of the (rounded) argument, returned as the exact rational of that double ---- *)
+let bits_of_pos (p : positive) : string = bin_of_pos p
+let float_of_bin (b : string) : float * int =
+  (* value = m * 2^e with m built from the first 62 bits *)
+  let n = String.length b in
+  let k = min n 62 in
+  let m = ref 0.0 in
+  for i = 0 to k - 1 do m := !m *. 2.0 +. (if b.[i] = '1' then 1.0 else 0.0) done;
+  (!m, n - k)
+let float_of_q (x : q) : float =
+  let x = qred x in
+  match x.qnum with
+  | Z0 -> 0.0
+  | Zpos p | Zneg p ->
+    let (mn, en) = float_of_bin (bin_of_pos p) and (md, ed) = float_of_bin (bin_of_pos x.qden) in
+    let v = ldexp (mn /. md) (en - ed) in
+    (match x.qnum with Zneg _ -> -. v | _ -> v)
+let bin_of_int64 (v : int64) : string =
+  if v = 0L then "0" else begin
+    let b = Buffer.create 64 and started = ref false in
+    for i = 62 downto 0 do
+      let bit = Int64.logand (Int64.shift_right_logical v i) 1L = 1L in
+      if bit then started := true;
+      if !started then Buffer.add_char b (if bit then '1' else '0')
+    done; Buffer.contents b end
+let q_of_float (f : float) : q =
+  if f = 0.0 || f <> f || f = infinity || f = neg_infinity then q0 else begin
+    let (m, e) = frexp (abs_float f) in
+    let mant = Int64.of_float (ldexp m 53) and ex = e - 53 in
+    let mb = bin_of_int64 mant in
+    let num = if ex >= 0 then mb ^ String.make ex '0' else mb in
+    let den = if ex >= 0 then "1" else "1" ^ String.make (- ex) '0' in
+    let r = qred { qnum = z_of_bin num; qden = pos_of_bin den } in
+    if f < 0.0 then qopp r else r end
+let q_sqrt (x : q) : q = q_of_float (sqrt (float_of_q x))
 
 let split_on sep toks =
   let rec go acc cur = function
@@ -106,9 +148,29 @@ let handle line =
      | _ ->
        let k = (match List.nth par 0 with [s] -> int_of_string s | _ -> 0) in
        let ev = arr_fun (Array.of_list (psec 1)) and v = mat_fun (Array.of_list (psec 2)) k in
-       String.concat " " [ out "mean" (List.map (fun j -> mean (ft j) data) (range d));
+       let base = [ out "mean" (List.map (fun j -> mean (ft j) data) (range d));
                            out "gram" (List.concat_map (fun i -> List.map (fun l -> gram dd v (nat_of_int i) (nat_of_int l)) (range k)) (range k));
-                           out "eigres" (List.concat_map (fun i -> List.map (fun j -> eig_residual dd v ev data (nat_of_int i) (nat_of_int j)) (range d)) (range k)) ])
+                           out "eigres" (List.concat_map (fun i -> List.map (fun j -> eig_residual dd v ev data (nat_of_int i) (nat_of_int j)) (range d)) (range k)) ] in
+       let ext =
+         if List.length par < 8 then [] else begin
+           let on = (match List.nth par 3 with [s] -> int_of_string s | _ -> 0) in
+           let od = arr_fun (Array.of_list (psec 4)) and ou = mat_fun (Array.of_list (psec 5)) on in
+           let epsm = List.hd (psec 6) and cut = List.hd (psec 7) in
+           let wh = (arg 0 = "1") and mreq = int_of_string (arg 1) in
+           let oracle _ _ = (ou, od) in
+           let ((mv, mev), met) = pca_setdata q_sqrt oracle epsm dd data in
+           let mu = pca_mean dd data in
+           let m = int_of_nat (pca_m dd (nat_of_int n) (nat_of_int mreq)) in
+           let (ea, eb) = pca_encoder q_sqrt cut wh dd mv mev mu and (da, db) = pca_decoder q_sqrt cut wh mv mev mu in
+           [ out "mev" (List.map (fun i -> mev (nat_of_int i)) (range on));
+             out "mevec" (List.concat_map (fun j -> List.map (fun i -> mv (nat_of_int j) (nat_of_int i)) (range on)) (range d));
+             out "met" met;
+             out "encA" (List.concat_map (fun a -> List.map (fun j -> ea (nat_of_int a) (nat_of_int j)) (range d)) (range m));
+             out "encb" (List.map (fun a -> eb (nat_of_int a)) (range m));
+             out "decA" (List.concat_map (fun j -> List.map (fun a -> da (nat_of_int j) (nat_of_int a)) (range m)) (range d));
+             out "decb" (List.map (fun j -> db (nat_of_int j)) (range d));
+             out "whmet" (if wh then pca_wh_met cut (nat_of_int m) mev else []) ] end in
+       String.concat " " (base @ ext))
   | "L" ->
     let lam = q_of_string (arg 0) and d = int_of_string (arg 2) and o = int_of_string (arg 3) in
     let xs = rows d (sec 2) and ys = rows o (sec 3) in
